@@ -940,7 +940,8 @@ def oracle_C10(run):
         if o == 'send_headers' and client[c] and op['sid'] not in sb['streams'] and sb['state'] != 'CLOSED':
             nb = count(sb, own)
             lim = sb['remote'].get(3, [2**32 + 1])[0]
-            if lim is not None and nb + 1 > lim and not (r[0] == 'exc' and r[1] == 'TooManyStreamsError'):
+            # (a call that is invalid for another reason as well may be refused for that reason first)
+            if lim is not None and nb + 1 > lim and r[0] == 'ok':
                 out.append(fail('opening-over-limit-not-refused', i, open=nb, limit=lim, got=obs['res']))
             if lim is not None and nb + 1 > lim and obs['out'] != '+.':
                 out.append(fail('refused-opening-emitted-bytes', i))
@@ -1338,8 +1339,92 @@ def oracle_C27(run):
     return out
 
 
+# ---------------------------------------------------------------------------
+# C24  alternative services (RFC 7838)
+# ---------------------------------------------------------------------------
+def oracle_C24(run):
+    out = []
+    client = roles(run)
+    for i, (op, ol, ml, obs) in enumerate(run.log):
+        if obs is None:
+            continue
+        o = op['op']
+        c = conn_of(op)
+        sb = obs['snap_before']
+        r = res(obs)
+        if o == 'altsvc':
+            origin, sid = op.get('origin'), op.get('sid')
+            fr = raw_frames(obs.get('appended') or b'')
+            alt = [f for f in (fr or []) if f['type'] == wire.ALTSVC]
+            if (origin is not None) == (sid is not None):
+                if r != ('py', 'ValueError') or obs['out'] != '+.':
+                    out.append(fail('origin-xor-stream-not-enforced', i, got=obs['res']))
+                continue
+            if client[c]:
+                if r[0] != 'exc' or obs['out'] != '+.':
+                    out.append(fail('client-advertised', i, got=obs['res']))
+                continue
+            if r[0] == 'ok':
+                if len(alt) != 1 or len(fr) != 1:
+                    out.append(fail('advertisement-not-one-altsvc-frame', i, frames=len(fr or [])))
+                    continue
+                f = alt[0]
+                pl = f['payload']
+                olen = struct.unpack('>H', pl[:2])[0]
+                forigin, ffield = pl[2:2 + olen], pl[2 + olen:]
+                if origin is not None and (f['sid'] != 0 or forigin != origin or ffield != op['field']):
+                    out.append(fail('origin-advertisement-wrong-frame', i))
+                    continue
+                if sid is not None:
+                    st = sb['streams'].get(sid)
+                    if f['sid'] != sid or forigin != b'' or ffield != op['field']:
+                        out.append(fail('stream-advertisement-wrong-frame', i))
+                        continue
+                    # allowed only after the request was received and before response headers were sent
+                    if st is None or st[9] is not False or st[5] or st[0] in ('CLOSED', 'IDLE'):
+                        out.append(fail('stream-advertisement-outside-window', i, stream=list(st) if st else None))
+                        continue
+            elif sid is not None and r[0] == 'exc' and sb['state'] != 'CLOSED':
+                st = sb['streams'].get(sid)
+                if st and st[9] is False and not st[5] and st[0] in ('OPEN', 'HALF_CLOSED_REMOTE') and r[1] == 'ProtocolError':
+                    out.append(fail('stream-advertisement-refused-inside-window', i, stream=list(st)))
+                    continue
+        if is_recv(op) and obs['res'].startswith('ok'):
+            data = obs.get('xfer_data') if o == 'xfer' else op['data']
+            rfs = raw_frames(data) if before_buf_empty(run, i, c) and buflen(ol) == '0' else None
+            evs = [e for e in obs['raw_events'] if type(e).__name__ == 'AlternativeServiceAvailable']
+            if rfs is not None and len(rfs) == 1 and rfs[0]['type'] == wire.ALTSVC and len(rfs[0]['payload']) >= 2:
+                f = rfs[0]
+                pl = f['payload']
+                olen = struct.unpack('>H', pl[:2])[0]
+                if len(pl) < 2 + olen:
+                    continue
+                forigin, ffield = pl[2:2 + olen], pl[2 + olen:]
+                want = None
+                if not client[c]:
+                    want = 0
+                elif f['sid'] == 0:
+                    want = 1 if forigin else 0
+                else:
+                    st = sb['streams'].get(f['sid'])
+                    if forigin or st is None:
+                        want = 0
+                    elif st[9] is True and not st[6] and st[0] not in ('CLOSED', 'IDLE'):
+                        want = 1
+                    elif st[6] or st[9] is False:
+                        want = 0
+                if want is not None and len(evs) != want:
+                    out.append(fail('altsvc-event-count', i, got=len(evs), want=want, sid=f['sid'], origin=forigin.hex()))
+                    continue
+                if want == 1 and f['sid'] == 0 and (evs[0].origin != forigin or evs[0].field_value != ffield):
+                    out.append(fail('altsvc-event-fields', i))
+            elif rfs is not None and evs and not any(f['type'] == wire.ALTSVC for f in rfs):
+                out.append(fail('altsvc-event-without-frame', i))
+    return out
+
+
 ORACLES = {
     'C02': oracle_C02, 'C03': oracle_C03, 'C04': oracle_C04, 'C05': oracle_C05, 'C07': oracle_C07, 'C08': oracle_C08,
     'C09': oracle_C09, 'C10': oracle_C10, 'C12': oracle_C12, 'C13': oracle_C13, 'C17': oracle_C17, 'C18': oracle_C18,
-    'C19': oracle_C19, 'C21': oracle_C21, 'C26': oracle_C26, 'C27': oracle_C27, 'C29': oracle_C29,
+    'C19': oracle_C19, 'C21': oracle_C21, 'C24': oracle_C24, 'C26': oracle_C26, 'C27': oracle_C27, 'C29': oracle_C29,
 }
